@@ -116,6 +116,22 @@ func frameworkDir() string {
 	return d
 }
 
+// isFileScope reports whether obj is declared by a top-level var declaration of f.
+func isFileScope(f *ast.File, obj *ast.Object) bool {
+	for _, d := range f.Decls {
+		gd, ok := d.(*ast.GenDecl)
+		if !ok || gd.Tok != token.VAR {
+			continue
+		}
+		for _, sp := range gd.Specs {
+			if sp == obj.Decl {
+				return true
+			}
+		}
+	}
+	return false
+}
+
 func parseAbs(path string) *ast.File {
 	old := repoRoot
 	repoRoot = ""
@@ -258,6 +274,73 @@ func genC17() string {
 		checks = append(checks, exprText(ifs.Cond))
 	}
 	fmt.Fprintf(&b, "/-- the conditions of `validate`, in source order -/\ndef validateChecks : List String := %s\n\n", leanStrList(checks))
+
+	// package-level variables (mutable state shared by all calls) that run / Output touch;
+	// error sentinels (errors.New / fmt.Errorf initialisers) do not count
+	pkgVars := map[string]bool{}
+	entries, err := os.ReadDir(filepath.Join(repoRoot, "plugin"))
+	if err != nil {
+		fail("plugin: %v", err)
+	}
+	for _, e := range entries {
+		n := e.Name()
+		if e.IsDir() || !strings.HasSuffix(n, ".go") || strings.HasSuffix(n, "_test.go") {
+			continue
+		}
+		pf := parseFile(filepath.Join("plugin", n))
+		for _, d := range pf.Decls {
+			gd, ok := d.(*ast.GenDecl)
+			if !ok || gd.Tok != token.VAR {
+				continue
+			}
+			for _, sp := range gd.Specs {
+				vs := sp.(*ast.ValueSpec)
+				for i, nm := range vs.Names {
+					if i < len(vs.Values) {
+						if call, ok := vs.Values[i].(*ast.CallExpr); ok {
+							if cn := callName(call); cn == "errors.New" || cn == "fmt.Errorf" {
+								continue
+							}
+						}
+					}
+					pkgVars[nm.Name] = true
+				}
+			}
+		}
+	}
+	seen := map[string]bool{}
+	var globals []string
+	for _, fd := range []*ast.FuncDecl{mustFunc(f, file, "", "run"), out} {
+		ast.Inspect(fd.Body, func(n ast.Node) bool {
+			if sel, ok := n.(*ast.SelectorExpr); ok {
+				// x.Sel: only x can be a package-level variable
+				ast.Inspect(sel.X, func(m ast.Node) bool {
+					if id, ok := m.(*ast.Ident); ok && pkgVars[id.Name] && id.Obj != nil && id.Obj.Kind == ast.Var && !seen[id.Name] {
+						if _, isSpec := id.Obj.Decl.(*ast.ValueSpec); isSpec {
+							seen[id.Name] = true
+							globals = append(globals, id.Name)
+						}
+					}
+					return true
+				})
+				return false
+			}
+			if id, ok := n.(*ast.Ident); ok && pkgVars[id.Name] && !seen[id.Name] {
+				// resolved by the parser to a file-scope declaration, or unresolved (declared in another file)
+				local := id.Obj != nil
+				if local {
+					_, isSpec := id.Obj.Decl.(*ast.ValueSpec)
+					local = !isSpec || !isFileScope(f, id.Obj)
+				}
+				if !local {
+					seen[id.Name] = true
+					globals = append(globals, id.Name)
+				}
+			}
+			return true
+		})
+	}
+	fmt.Fprintf(&b, "/-- package-level variables referenced by `run` and `execCommander.Output` (state shared between calls) -/\ndef runGlobals : List String := %s\n\n", leanStrList(globals))
 
 	// contract version and error codes live in notation-plugin-framework-go
 	fw := frameworkDir()
